@@ -1114,6 +1114,121 @@ class SchemasInit(FnSpec):
         return out
 
 
+# ---- TOCPackages.__init__: the package table rebuilt from the stored records on open ---------------------------------------------
+STORED_INFO = z3.Function("parsed_package_record", PDs, Info)  # PluginPkgMeta.parse_raw of the bytes stored under the record of that package (T5)
+
+
+class PkgInitObj(SObj):
+    def py_setattr(self, cx, name, val):
+        if isinstance(val, dict) and not val and name in ("_pkginfos", "_providers"):
+            val = SMap(PD, IT, name="pkginfos") if name == "_pkginfos" else SMap(RT, TSetT(PD), name="providers")
+        SObj.py_setattr(self, cx, name, val)
+
+
+class PkgRecName(SVal):
+    def __init__(self, p):
+        self.p = p
+
+
+class PkgRecNode(SVal):
+    def __init__(self, p):
+        self.p = p
+
+    def py_getitem(self, cx, idx):
+        if idx != ():
+            raise Unsupported("read of a package record other than [()]")
+        return PkgRecBytes(self.p)
+
+
+class PkgRecBytes(SVal):
+    def __init__(self, p):
+        self.p = p
+
+
+class PkgRecItems(SVal):
+    def __init__(self, rec):
+        self.rec = rec
+
+    def py_iter_schema(self, cx):
+        from pyvc.containers import SetIter
+
+        return SetIter(PD, self.rec.dom, lambda kterm: (PkgRecName(kterm), PkgRecNode(kterm)))
+
+
+class PkgInitRaw(SVal):
+    def __init__(self, rec):
+        self.rec = rec
+
+    def py_contains(self, cx, k):
+        if k != PKGS_PATH:
+            raise Unsupported("membership of " + repr(k))
+        return z3.Not(is_empty_set(self.rec))  # the packages group exists iff there are records (no empty bookkeeping groups)
+
+    def meth_require_group(self, cx, k):
+        if k != PKGS_PATH:
+            raise Unsupported("group " + repr(k))
+        return self
+
+    def meth_items(self, cx):
+        return PkgRecItems(self.rec)
+
+
+class PkgMetaCls(SVal):
+    def meth_parse_raw(self, cx, b):
+        if not isinstance(b, PkgRecBytes):
+            raise Unsupported("parse_raw of something else than a stored package record")
+        return SRef("PkgInfo", STORED_INFO(b.p))
+
+
+class PackagesInit(FnSpec):
+    file = "container/interface.py"
+    qual = "TOCPackages.__init__"
+    props = ("C06", "C20")
+
+    def init(self):
+        self.bindings["M"] = MStub()
+        self.bindings["EPName"] = lambda cx, n: n
+        self.bindings["from_ep_name"] = lambda cx, n: PD.wrap(n.p)  # the record name is to_ep_name(package name, version): decoded back (C16 round trip)
+        self.bindings["PluginPkgMeta"] = PkgMetaCls()
+        self.bindings["cast"] = lambda cx, t, v: v
+        self.bindings["H5DatasetLike"] = SClass("H5DatasetLike")
+
+        def inv(cx, env, it):
+            a = cx.ghost["pi"]
+            o = a.self
+            I, P = o.fields["_pkginfos"], o.fields["_providers"]
+            p = z3.Const(fresh_name("qp"), PDs)
+            s = z3.Const(fresh_name("qs"), Ref)
+            return [
+                ("infos-are-the-records-read-so-far", z3.ForAll([p], z3.And(I.has(p) == z3.Select(it.processed, p), z3.Implies(I.has(p), I.get_term(p) == STORED_INFO(p))))),
+                ("providers-are-the-inverse-of-the-infos-read-so-far", z3.ForAll([s, p], member(P, s, p) == z3.And(z3.Select(it.processed, p), z3.Select(PL(STORED_INFO(p)), s)))),
+                ("no-schema-without-a-provider", z3.ForAll([s], z3.Implies(P.has(s), z3.Exists([p], member(P, s, p))))),
+            ]
+
+        self.loops[0] = LoopSpec(inv, modifies=["name", "node", "pkg", "info"], havoc_inplace=["self._pkginfos", "self._providers"])
+
+    def setup(self, cx):
+        o = PkgInitObj("TOCPackages", name="self")
+        rec = SSet.fresh(PD, "stored_package_records")
+        a = A(self=o, raw_container=PkgInitRaw(rec))
+        a.rec = rec
+        cx.ghost["pi"] = a
+        return a
+
+    def ensures(self, cx, a, res):
+        o = a.self
+        I, P = o.fields.get("_pkginfos"), o.fields.get("_providers")
+        if not isinstance(I, SMap) or not isinstance(P, SMap):
+            return [("tables-initialised", z3.BoolVal(False), "the tables exist")]
+        p = z3.Const(fresh_name("ep"), PDs)
+        s = z3.Const(fresh_name("es"), Ref)
+        return [
+            ("package-table-is-the-stored-records", z3.ForAll([p], z3.And(I.has(p) == a.rec.has(p), z3.Implies(I.has(p), I.get_term(p) == STORED_INFO(p)))), "a freshly opened container reports exactly the package records stored in it, each as parsed from its bytes"),
+            ("providers-rebuilt-as-the-inverse", z3.ForAll([s, p], member(P, s, p) == z3.And(a.rec.has(p), z3.Select(PL(STORED_INFO(p)), s))), "the schema -> providing packages table is rebuilt as the inverse of ALL stored records' plugin lists (not only the last one read)"),
+            ("raw-wired", z3.BoolVal(o.fields.get("_raw") is a.raw_container), "the raw container is the one given"),
+        ]
+
+
 def add_tocreg(reg):
     reg.set_class_home("TOCPackages", "container/interface.py")
     reg.attr_bindings[("PkgInfo", "plugins")] = lambda cx, o: PluginsStub(o.t)
@@ -1124,7 +1239,7 @@ def add_tocreg(reg):
     reg.attr_bindings[("PkgInfo", "version")] = lambda cx, o: VER.wrap(INFO_VER(o.t))
     reg.attr_bindings[("SchemaRef", "name")] = lambda cx, o: SStr(REF_NAME(o.t))
     reg.attr_bindings[("SchemaRef", "version")] = lambda cx, o: VER.wrap(REF_VER(o.t))
-    specs = [AddProviders(), PkgRegister(), PkgUnregister(), SchemaRegister(), SchemaUnregister(), LinksRegister(), LinksUnregister(), LinksUpdate(), SchemasInit()]
+    specs = [AddProviders(), PkgRegister(), PkgUnregister(), SchemaRegister(), SchemaUnregister(), LinksRegister(), LinksUnregister(), LinksUpdate(), SchemasInit(), PackagesInit()]
     for s in specs:
         reg.add(s)
     return specs
